@@ -66,6 +66,9 @@ func (e *Engine) relName(fn *ssa.Function) (pkg string, rel string) {
 }
 
 func (e *Engine) contractOf(fn *ssa.Function) *Contract {
+	if c, ok := e.protoContract[fn]; ok {
+		return c
+	}
 	pkg, rel := e.relName(fn)
 	if ps, ok := e.specs[pkg]; ok {
 		if c, ok := ps.Contracts[rel]; ok {
